@@ -120,10 +120,99 @@ WEXPORT int64_t w_classify(const uint8_t* toks, const uint64_t* lens, size_t nto
   }
   W_CATCH_ALL
 }
-WEXPORT int64_t w_exp_count(const uint8_t* toks, const uint64_t* lens, size_t ntok) {
+// One getter call on a parsed Arguments object. op: see the table in h_get.c. Named getters use (key, keylen), positional ones
+// pos. Returns 0 (value written to *val: integer value / double bits / string length | bytes<<8 / bool / count) or the W_* code
+// of the exception that escaped the getter.
+static const int32_t kDefaultInt = 77;
+static const double kDefaultDouble = 2.5;
+static int64_t pack_str(const std::string& s) {
+  int64_t v = static_cast<int64_t>(s.size() & 0xFF);
+  for (size_t k = 0; k < s.size() && k < 6; k++) v |= static_cast<int64_t>(static_cast<uint8_t>(s[k])) << (8 * (k + 1));
+  return v;
+}
+static int64_t dbits(double d) {
+  int64_t v;
+  memcpy(&v, &d, 8);
+  return v;
+}
+static int64_t run_getter(Arguments& a, uint32_t op, size_t pos, const std::string& key, int64_t* val) {
+  try {
+    switch (op) {
+      case 0: *val = pack_str(a.get<std::string>(pos)); return 0;            // throw_if_missing defaults to true
+      case 1: *val = pack_str(a.get<std::string>(pos, false)); return 0;
+      case 2: *val = pack_str(a.get<std::string>(key)); return 0;            // throw_if_missing defaults to false
+      case 3: *val = pack_str(a.get<std::string>(key, true)); return 0;
+      case 4: *val = a.get<bool>(key.c_str()); return 0;
+      case 5: *val = static_cast<int64_t>(a.get_multi<std::string>(key).size()); return 0;
+      case 6: *val = a.get<int32_t>(pos); return 0;
+      case 7: *val = a.get<int32_t>(key); return 0;
+      case 8: *val = a.get<int32_t>(pos, kDefaultInt); return 0;
+      case 9: *val = a.get<int32_t>(key, kDefaultInt); return 0;
+      case 10: *val = dbits(a.get<double>(pos)); return 0;
+      case 11: *val = dbits(a.get<double>(key, kDefaultDouble)); return 0;
+      case 12: *val = static_cast<int64_t>(a.get_multi<int16_t>(key).size()); return 0;
+      case 13: *val = a.get<uint8_t>(key, Arguments::IntFormat::HEX); return 0;
+      default: return -99;
+    }
+  }
+  W_CATCH_ALL
+}
+
+// Arguments(tokens); one getter; assert_none_unused.  res[0] = getter code, res[1] = getter value,
+// res[2] = code of assert_none_unused (0 or W_INVALID_ARGUMENT).
+WEXPORT int64_t w_get(const uint8_t* toks, const uint64_t* lens, size_t ntok, uint32_t op, size_t pos, const uint8_t* key, size_t keylen, int64_t* res) {
   try {
     Arguments a(make_tokens(toks, lens, ntok));
-    return a.positional.size() + 16 * a.named.size();
+    std::string k(reinterpret_cast<const char*>(key), keylen);
+    res[0] = run_getter(a, op, pos, k, &res[1]);
+    try {
+      a.assert_none_unused();
+      res[2] = 0;
+    } catch (const std::invalid_argument&) {
+      res[2] = W_INVALID_ARGUMENT;
+    }
+    return 0;
+  }
+  W_CATCH_ALL
+}
+
+// Used-flag bookkeeping on a fixed command line (LIST selects it, see h_unused.c): bit i of mask = "call the getter that
+// reads argument i". Returns the code of assert_none_unused.
+WEXPORT int64_t w_unused(uint32_t list, uint64_t mask) {
+  try {
+    switch (list) {
+      case 0: { // p --a=1 q --b -cd
+        Arguments a(std::vector<std::string>{"p", "--a=1", "q", "--b", "-cd"});
+        if (mask & 1) a.get<std::string>(0);
+        if (mask & 2) a.get<std::string>("a");
+        if (mask & 4) a.get<std::string>(1, false);
+        if (mask & 8) a.get<bool>("b");
+        if (mask & 16) a.get<bool>("c");
+        if (mask & 32) a.get_multi<std::string>("d");
+        if (mask & 64) a.get<std::string>(2, false);     // absent
+        if (mask & 128) a.get<bool>("zz");                // absent
+        a.assert_none_unused();
+        return 0;
+      }
+      case 1: { // repeated option: only get_multi reads it (both values at once)
+        Arguments a(std::vector<std::string>{"--x=1", "r", "--x=2"});
+        if (mask & 1) a.get_multi<std::string>("x");
+        if (mask & 2) a.get<std::string>(0);
+        if (mask & 4) a.get_multi<std::string>("y");      // absent
+        a.assert_none_unused();
+        return 0;
+      }
+      default: { // the command line given as one string (split_args first)
+        Arguments a(std::string("p 'q r' --a=\"1 2\" -b"));
+        if (mask & 1) a.get<std::string>(0);
+        if (mask & 2) a.get<std::string>(1);
+        if (mask & 4) a.get<std::string>("a");
+        if (mask & 8) a.get<bool>("b");
+        if (mask & 16) a.get<std::string>(2, false);      // absent: "q r" is one token
+        a.assert_none_unused();
+        return 0;
+      }
+    }
   }
   W_CATCH_ALL
 }
